@@ -275,6 +275,7 @@ func prepare(sid int, steps []Step) (*rround, []rmut, error) {
 					m.hs = append(m.hs, newObj(a+1, t))
 				}
 			}
+			m.hs = InOrder(m.hs, s.Order)
 			m.kind = "replace-all"
 		case "Mark":
 			if m.h, err = get(s.O); err != nil {
